@@ -1,0 +1,156 @@
+//go:build verif
+
+package genetics
+
+import (
+	"context"
+
+	"github.com/yaricom/goNEAT/v4/neat"
+	"github.com/yaricom/goNEAT/v4/neat/network"
+)
+
+// This file is compiled only with the build tag "verif". It exports one-line forwarders to unexported
+// operations and read-only accessors of unexported fields, so that an external verification harness can
+// drive them. It contains no logic of its own and is excluded from regular builds and from the test suite.
+
+/* ---- Genome operators ---- */
+
+func (g *Genome) VerifDuplicate(newId int) (*Genome, error) { return g.duplicate(newId) }
+
+func (g *Genome) VerifVerify() (bool, error) { return g.verify() }
+
+func (g *Genome) VerifMutateAddNode(innovations InnovationsObserver, ids network.NodeIdGenerator, opts *neat.Options) (bool, error) {
+	return g.mutateAddNode(innovations, ids, opts)
+}
+
+func (g *Genome) VerifMutateAddLink(innovations InnovationsObserver, generation int, opts *neat.Options) (bool, error) {
+	return g.mutateAddLink(innovations, generation, opts)
+}
+
+func (g *Genome) VerifMutateConnectSensors(innovations InnovationsObserver, opts *neat.Options) (bool, error) {
+	return g.mutateConnectSensors(innovations, opts)
+}
+
+func (g *Genome) VerifMutateLinkWeights(power, rate float64, cold bool) (bool, error) {
+	if cold {
+		return g.mutateLinkWeights(power, rate, goldGaussianMutator)
+	}
+	return g.mutateLinkWeights(power, rate, gaussianMutator)
+}
+
+func (g *Genome) VerifMutateRandomTrait(opts *neat.Options) (bool, error) {
+	return g.mutateRandomTrait(opts)
+}
+
+func (g *Genome) VerifMutateLinkTrait(times int) (bool, error) { return g.mutateLinkTrait(times) }
+
+func (g *Genome) VerifMutateNodeTrait(times int) (bool, error) { return g.mutateNodeTrait(times) }
+
+func (g *Genome) VerifMutateToggleEnable(times int) (bool, error) {
+	return g.mutateToggleEnable(times)
+}
+
+func (g *Genome) VerifMutateGeneReEnable() (bool, error) { return g.mutateGeneReEnable() }
+
+func (g *Genome) VerifMutateAllNonstructural(opts *neat.Options) (bool, error) {
+	return g.mutateAllNonstructural(opts)
+}
+
+func (g *Genome) VerifMateMultipoint(og *Genome, genomeId int, fitness1, fitness2 float64) (*Genome, error) {
+	return g.mateMultipoint(og, genomeId, fitness1, fitness2)
+}
+
+func (g *Genome) VerifMateMultipointAvg(og *Genome, genomeId int, fitness1, fitness2 float64) (*Genome, error) {
+	return g.mateMultipointAvg(og, genomeId, fitness1, fitness2)
+}
+
+func (g *Genome) VerifMateSinglePoint(og *Genome, genomeId int) (*Genome, error) {
+	return g.mateSinglePoint(og, genomeId)
+}
+
+func (g *Genome) VerifCompatibility(og *Genome, opts *neat.Options) float64 {
+	return g.compatibility(og, opts)
+}
+
+func (g *Genome) VerifCompatLinear(og *Genome, opts *neat.Options) float64 {
+	return g.compatLinear(og, opts)
+}
+
+func (g *Genome) VerifCompatFast(og *Genome, opts *neat.Options) float64 {
+	return g.compatFast(og, opts)
+}
+
+func VerifNewGenomeRand(newId, in, out, n, maxHidden int, recurrent bool, linkProb float64, opts *neat.Options) (*Genome, error) {
+	return newGenomeRand(newId, in, out, n, maxHidden, recurrent, linkProb, opts)
+}
+
+/* ---- Population ---- */
+
+// VerifNewPopulation creates an empty population whose counters are set to the given values
+func VerifNewPopulation(nextInnovNum int64, nextNodeId int) *Population {
+	p := newPopulation()
+	p.nextInnovNum = nextInnovNum
+	p.nextNodeId = int32(nextNodeId)
+	return p
+}
+
+func (p *Population) VerifAddOrganisms(orgs []*Organism) { p.Organisms = append(p.Organisms, orgs...) }
+
+func (p *Population) VerifSpeciate(ctx context.Context, orgs []*Organism) error {
+	return p.speciate(ctx, orgs)
+}
+
+func (p *Population) VerifCounters() (int64, int) { return p.nextInnovNum, int(p.nextNodeId) }
+
+// VerifResetInnovations executes the statement with which finalizeReproduction forgets the innovations
+func (p *Population) VerifResetInnovations() { p.innovations = make([]Innovation, 0) }
+
+func (p *Population) VerifPurgeZeroOffspringSpecies(generation int) {
+	p.purgeZeroOffspringSpecies(generation)
+}
+
+func (p *Population) VerifGiveBabiesToTheBest(sorted []*Species, opts *neat.Options) {
+	p.giveBabiesToTheBest(sorted, opts)
+}
+
+func (p *Population) VerifDeltaCoding(sorted []*Species, opts *neat.Options) {
+	p.deltaCoding(sorted, opts)
+}
+
+func (p *Population) VerifPurgeOrganisms() error { return p.purgeOrganisms() }
+
+/* ---- Species ---- */
+
+func (s *Species) VerifAdjustFitness(opts *neat.Options) { s.adjustFitness(opts) }
+
+func (s *Species) VerifCountOffspring(skim float64) (int, float64) { return s.countOffspring(skim) }
+
+func (s *Species) VerifReproduce(ctx context.Context, generation int, pop *Population, sorted []*Species) ([]*Organism, error) {
+	return s.reproduce(ctx, generation, pop, sorted)
+}
+
+/* ---- Sequential executor phases ---- */
+
+func (s *SequentialPopulationEpochExecutor) VerifPrepare(ctx context.Context, generation int, p *Population) error {
+	return s.prepareForReproduction(ctx, generation, p)
+}
+
+func (s *SequentialPopulationEpochExecutor) VerifReproduce(ctx context.Context, generation int, p *Population) error {
+	return s.reproduce(ctx, generation, p)
+}
+
+func (s *SequentialPopulationEpochExecutor) VerifFinalize(ctx context.Context, p *Population) error {
+	return s.finalizeReproduction(ctx, p)
+}
+
+func (s *SequentialPopulationEpochExecutor) VerifSortedSpecies() []*Species { return s.sortedSpecies }
+
+/* ---- Organism (reads) ---- */
+
+func (o *Organism) VerifOriginalFitness() float64 { return o.originalFitness }
+
+func (o *Organism) VerifToEliminate() bool { return o.toEliminate }
+
+func (o *Organism) VerifIsChampion() bool { return o.isChampion }
+
+func (o *Organism) VerifSuperChampOffspring() int { return o.superChampOffspring }
